@@ -41,11 +41,11 @@ def edge_offsets(mode, y):
     return sorted(offs)
 
 
-def rand_point(rnd, mode, wide=True, whole=True, allow24=True, years=None, zones=None):
+def rand_point(rnd, mode, wide=True, whole=True, allow24=True, years=None, zones=None, only_years=False):
     """A boundary-biased random time point record for calendar meaning `mode`."""
     ys = years or YEARS
     r = rnd.random()
-    if r < 0.75:
+    if r < 0.75 or only_years:
         y = rnd.choice(ys)
     elif r < 0.9 or not wide:
         y = rnd.randint(1800, 2200)
